@@ -50,7 +50,7 @@ def dispatch(vm, m, callee, args):
     A = vm.alg
     c = callee
     # ---- f64 ---------------------------------------------------------------------------------
-    mm = re.match(r'^(?:std|core)::f(?:64|32)::<impl f(?:64|32)>::(\w+)$', c)
+    mm = re.match(r'^(?:(?:std|core)::)?(?:f(?:64|32)::)?<impl f(?:64|32)>::(\w+)$', c)
     if mm:
         n = mm.group(1); a = args
         if n in F64_1: return ret(m, A.call1(n, a[0]))
@@ -98,7 +98,7 @@ def dispatch(vm, m, callee, args):
     if mm:
         a, b = deref_val(vm, m, args[0]), deref_val(vm, m, args[1])
         return ret(m, getattr(A, mm.group(1))(a, b))
-    mm = re.match(r'^(?:std|core)::num::<impl (u64|usize|i64|u32|i32)>::(\w+)$', c)
+    mm = re.match(r'^(?:(?:std|core)::)?(?:num::)?<impl (u64|usize|i64|u32|i32)>::(\w+)$', c)
     if mm:
         ty, n = mm.groups(); lo, hi = INT_RANGES[ty]; a = args
         if n == 'abs':
@@ -127,7 +127,11 @@ def dispatch(vm, m, callee, args):
             if is_sym(a[1]): raise Unmodelled('symbolic pow exponent')
             r = 1
             for _ in range(a[1]): r = r * a[0]
-            return ret(m, r)
+            # overflow-checks are on: an unrepresentable power panics
+            outs = []
+            for (m2, ok) in vm.branch(m, z3.And(r >= lo, r <= hi) if is_sym(r) else (lo <= r <= hi)):
+                outs.append((m2, 'ret', r) if ok else (m2, 'panic', ('attempt to multiply with overflow', None, None)))
+            return outs
         if n in ('wrapping_add', 'wrapping_sub', 'wrapping_mul'):
             r = {'wrapping_add': a[0] + a[1], 'wrapping_sub': a[0] - a[1], 'wrapping_mul': a[0] * a[1]}[n]
             if is_sym(r): return ret(m, (r - lo) % (hi - lo + 1) + lo)
@@ -148,7 +152,7 @@ def dispatch(vm, m, callee, args):
         if isinstance(v, Enum) and v.name == 'None': return ret(m, NONE())
         raise VMError('from_residual of %r' % (v,))
     # ---- Option / Result ---------------------------------------------------------------------
-    mm = re.match(r'^(?:std|core)::(?:option::Option|result::Result)::<.*?>::(\w+)(?:::<.*>)?$', c)
+    mm = re.match(r'^(?:(?:std|core)::)?(?:option::|result::)?(?:Option|Result)::<.*?>::(\w+)(?:::<.*>)?$', c)
     if mm:
         n = mm.group(1); v = args[0]
         rv = deref_val(vm, m, v)
@@ -202,7 +206,7 @@ def dispatch(vm, m, callee, args):
             return _opt_combinator(vm, m, n, rv, args)
         raise Unmodelled('Option/Result method ' + c)
     # ---- mem ---------------------------------------------------------------------------------
-    mm = re.match(r'^(?:std|core)::mem::(replace|swap|take|drop|forget)::<', c)
+    mm = re.match(r'^(?:(?:std|core)::)?(?:mem::)?(replace|swap|take|drop|forget)::<', c)
     if mm:
         n = mm.group(1)
         if n == 'replace':
@@ -244,8 +248,8 @@ def dispatch(vm, m, callee, args):
         for (m2, k, v) in vm.call(m, c[:-2] + 'eq', args): outs.append((m2, k, _not(v) if k == 'ret' else v))
         return outs
     # ---- Range<u64> iteration ----------------------------------------------------------------------
-    if re.match(r'^<std::ops::Range(Inclusive)?<(u64|usize|i64|u32)> as IntoIterator>::into_iter$', c): return ret(m, args[0])
-    mm = re.match(r'^<std::ops::Range<(u64|usize|i64|u32)> as Iterator>::next$', c)
+    if re.match(r'^<(?:std::ops::)?Range(Inclusive)?<(u64|usize|i64|u32)> as IntoIterator>::into_iter$', c): return ret(m, args[0])
+    mm = re.match(r'^<(?:std::ops::)?Range<(u64|usize|i64|u32)> as Iterator>::next$', c)
     if mm:
         r = args[0]; rng = vm.read_at(m, r.cell, r.path); lo, hi = rng.f
         outs = []
@@ -396,7 +400,7 @@ def _vec(vm, m, c, args):
             return ret(m, Iter([Ref(r.cell, r.path + (('i', k),)) for k in range(len(s.items))]))
         raise Unmodelled('VecDeque method ' + c)
     if re.match(r'^Vec::<.*>::new$', c) or re.match(r'^Vec::<.*>::with_capacity$', c): return ret(m, Seq(()))
-    if re.match(r'^std::vec::from_elem::<(f64|u64|usize|i64|bool|u32)>$', c) and isinstance(args[1], int): return ret(m, Seq([args[0]] * args[1]))
+    if re.match(r'^(?:std::)?(?:vec::)?from_elem::<(f64|u64|usize|i64|bool|u32)>$', c) and isinstance(args[1], int): return ret(m, Seq([args[0]] * args[1]))
     mm = re.match(r'^Vec::<.*?>::(\w+)(::<.*>)?$', c) or re.match(r'^(?:std::)?vec::Vec::<.*?>::(\w+)(::<.*>)?$', c)
     if mm:
         n = mm.group(1); r = args[0]
